@@ -1082,8 +1082,10 @@ class yanny(OrderedDict):
         # trailing_comments = re.compile(r'\s*\#[^"]+$')
         #
         # Double empty braces get replaced with empty quotes
+        # (but not inside a double-quoted string, i.e. only when an even
+        # number of double quotes follows).
         #
-        double_braces = re.compile(r'\{\s*\{\s*\}\s*\}')
+        double_braces = re.compile(r'\{\s*\{\s*\}\s*\}(?=(?:[^"]*"[^"]*")*[^"]*$)')
         if len(lines) > 0:
             for line in lines.split('\n'):
                 if len(line) == 0:
